@@ -4,12 +4,45 @@ package tlast
 
 import "strings"
 
-func init() { verifRegister("VerifC22Format", VerifC22Format) }
+func init() {
+	verifRegister("VerifC22Format", VerifC22Format)
+	verifRegister("VerifC22Comments", VerifC22Comments)
+}
+
+// VerifC22Comments: comment CONTENT symbolic (every byte except line breaks, <= cmtN bytes per line) in the positions the
+// grammar attaches comments to; the text is parsed by the real lexer/parser, so only parse-reachable comment strings occur
+func VerifC22Comments() {
+	n := verifParam("cmtN", 2)
+	line := func() string {
+		s := verifStringN(verifLen(n))
+		for i := 0; i < len(s); i++ {
+			verifAssume(s[i] != '\n' && s[i] != '\r')
+		}
+		return s
+	}
+	var text string
+	switch verifChoice(3) {
+	case 0: // two-line comment before a union variant, one line before a variant field, right comment
+		text = "a.u =\n    //" + line() + "\n    //" + line() + "\n    | one\n        //" + line() + "\n        x:int32 //" + line() + "\n    | two;\n"
+	case 1: // combinator comment, struct field comments
+		text = "//" + line() + "\n//" + line() + "\na.s = //" + line() + "\n    //" + line() + "\n    //" + line() + "\n    f1:int32\n    f2?:string;\n"
+	case 2: // function: argument comments
+		text = "//" + line() + "\n@read a.get#8ef1d9d6\n    //" + line() + "\n    //" + line() + "\n    id:int64 //" + line() + "\n    => int32;\n"
+	}
+	f, err := ParseTL2File(text, "s.tl2", LexerOptions{LexerLanguage: TL2})
+	if err != nil {
+		verifCover("comment-text-rejected")
+		return
+	}
+	verifC22Check(f, false)
+}
 
 var verifC22Skeletons = []string{
 	"a.point = x:int32 y?:int32;\na.u = one x:int32 | two | three a.point;\na.al <=> int64;\n",
 	"@read a.get#8ef1d9d6 id:int64 _:int32 => []a.point;\n@write a.set#8ef1d9d7 p:a.point => ;\na.p<x:Type,n:#> = v:[n]x m:[string]x w:[3][]a.p<int32,5>;\n",
 	"// leading comment\na.c#0badcafe = // right comment\n  f1:int32 // c1\n  f2?:string;\na.e = red | green | blue;\na.empty = ;\n",
+	// one- and multi-line comments in every position the grammar attaches them to (combinator, variant, variant field, struct field, argument)
+	"// top 1\n// top 2\na.u = // eq right\n    // v1 l1\n    // v1 l2\n    | one\n        // f l1\n        //   f l2 indented\n        x:int32 // fr\n        y:int32\n    // v2 l1\n    //\tv2 l2 tabbed\n    //v2 l3 tight\n    | two\n    // v3\n    | three a.point;\n// fn 1\n// fn 2\n@read a.get#8ef1d9d6\n    // arg l1\n    // arg l2\n    id:int64 // ar\n    => int32;\na.point =\n    // s l1\n    // s l2\n    x:int32 // r\n    // t l1\n    //  t l2\n    y?:string;\n",
 }
 
 func verifSymTL2Type(t *TL2TypeRef) {
@@ -104,7 +137,10 @@ func VerifC22Format() {
 		panic("harness skeleton does not parse: " + err.Error())
 	}
 	verifSymTL2(&f)
-	canonical := verifBool()
+	verifC22Check(f, verifBool())
+}
+
+func verifC22Check(f TL2File, canonical bool) {
 	s1 := verifPrintTL2(f, canonical)
 	f2, err := ParseTL2File(s1, "p.tl2", LexerOptions{LexerLanguage: TL2})
 	verifCover("formatted")
